@@ -608,7 +608,7 @@ func (e *engine) Run(src *vs.Source, tier string, idx int64) *simkit.RunResult {
 		res.Stats["fault/"+kind]++
 		use := decs
 		nth++
-		if len(adapters) > 0 && (kind == "control" || nth%6 == 0) {
+		if len(adapters) > 0 && (kind == "control" || kind == "hex-text" || nth%6 == 0) {
 			use = append(append([]int(nil), decs...), adapters...)
 		}
 		for _, di := range use {
